@@ -211,7 +211,16 @@ def r_planes(idx, rep, rule="R-PLANES"):
                 out.append(e)
             return out
         return None
-    sp, sd = entries("signp"), entries("signd")
+    # the two 4-entry arrays: `signd` is the one tested with np.all(X > 0) / np.all(X < 0), `signp` the one compared in the returns
+    arr4 = [n for n, v in loc.items() if isinstance(v, ast.Call) and call_name(v) == "np.array" and v.args and isinstance(v.args[0], ast.List) and len(v.args[0].elts) == 4]
+    dname = None
+    for n in ast.walk(f.node):
+        if isinstance(n, ast.Call) and call_name(n) == "np.all" and n.args and ncmp(n.args[0]) is not None:
+            for side in ncmp(n.args[0])[1:]:
+                if isinstance(side, ast.Name) and side.id in arr4:
+                    dname = side.id
+    pname = [n for n in arr4 if n != dname]
+    sp, sd = entries(pname[0]) if pname else None, entries(dname) if dname else None
     if not sp or not sd or len(sp) != 4 or len(sd) != 4:
         raise AnalysisError("origin_outside_of_tetrahedron_planes: signp / signd arrays of four entries not found")
     # guarded calls in closest_point_tetrahedron
